@@ -212,6 +212,8 @@ class Gen:
                          and (typ == 'str' or scope.vars[p].cls == 'E')]
             if same_name and self.chance(0.5):
                 args.append(('var', self.pick(same_name)))
+            elif typ == 'num' and self.chance(0.12):
+                args.append(A.num('0'))              # a parameter is a parameter whatever it holds
             else:
                 args.append(self.arg_expr(scope, typ, depth))
         return args
